@@ -281,6 +281,19 @@ def run(ctx):
     ctx.coverage["variant_expected_fixed"] = must   # a probe that disagrees is the L2 failure `variant-regressed`
     ctx.l1(outdir)
     ctx.classify(ctx.l2(outdir))
+    ctx.assumptions += [
+        "HashInj: the theorems assume a collision-free hash (false of SHA-256 in principle; the oracle runs the real SHA-256)",
+        "PullOk: a registry manifest spells digests sha256:<hex> and states the true SIZE of every blob (PullModel never "
+        "compares them; Lean witness pull_size_witness shows what a lying registry leaves) and has a decodable model layer (PullShowOk)",
+        "LitterOk / LegacyOk: a file planted by other means under a blob name (sha256-<hex> or legacy sha256:<hex>) holds that content",
+        "`create ... from` of a model that is not in the store (the pull inside parseFromModel) is the model function "
+        "createFromPull (invariant + frame proved, L1 exact) but not an operation of `step`: the history theorems, in "
+        "particular the case-twin ones, do not quantify over it; on /repo it creates a case twin (known finding N4)",
+        "GGUF decoding, template.Named and template.Parse are parameters of the model, fed per pool file / per request from the real functions",
+        "valid name parts are ASCII, so the model's ASCII case folding agrees with strings.EqualFold",
+        "outside the model: pull protocol (C03), resume of interrupted pulls, adapters/projectors, safetensors, quantize, "
+        "directories inside blobs/, symlinks at manifest depth, case-insensitive file systems, concurrent requests (C15), crashes (C12)",
+    ]
     if ctx.thorough:
         ctx.leanchecker(MODULES)
     return ctx.finish(
